@@ -19,6 +19,18 @@ Theorem C01_roundtrip_frag : forall m rest sch, valid_msg m -> pos_sched sch ->
 Proof. exact read_msg_roundtrip. Qed.
 Print Assumptions C01_roundtrip_frag.
 
+(* lossless: the frame determines the message and where it ends.  Two valid messages, each
+   followed by any bytes, that give the same byte string are the same message followed by the
+   same bytes; no valid frame is a proper prefix of another *)
+Theorem C01_injective : forall m1 m2 r1 r2, valid_msg m1 -> valid_msg m2 ->
+  enc_msg m1 ++ r1 = enc_msg m2 ++ r2 -> m1 = m2 /\ r1 = r2.
+Proof. exact enc_msg_injective. Qed.
+Print Assumptions C01_injective.
+Theorem C01_prefix_free : forall m1 m2 r, valid_msg m1 -> valid_msg m2 ->
+  enc_msg m1 = enc_msg m2 ++ r -> m1 = m2 /\ r = [].
+Proof. exact enc_msg_not_prefix. Qed.
+Print Assumptions C01_prefix_free.
+
 (* messages written back to back read back as the same sequence, then io.EOF *)
 Theorem C01_sequence : forall ms sch, Forall valid_msg ms -> pos_sched sch ->
   exists sch', read_all (S (List.length ms)) {| s_data := concat (map enc_msg ms); s_sched := sch |} =
